@@ -218,7 +218,9 @@ pub fn hf<E: std::fmt::Display>(sig: &str, what: &str) -> impl FnOnce(E) -> Fail
     move |e| Failure::new(sig, format!("{what}: {e}"))
 }
 
-pub const FLAG_CHOICES: [u64; 4] = [0, 8, 16, 24]; // {}, AUTHENTICATOR, CONTACT, both
+/// {}, AUTHENTICATOR, CONTACT, both (the sync engine uses these four), then NO_SYNC, the CLI's
+/// authenticator folder (AUTHENTICATOR|NO_SYNC|LOCAL), LOCAL, CONTACT|NO_SYNC
+pub const FLAG_CHOICES: [u64; 8] = [0, 8, 16, 24, 128, 8 | 128 | 256, 256, 16 | 128];
 
 pub async fn make_target(dir: &std::path::Path, db: bool) -> Result<BackendTarget, Failure> {
     let paths = Paths::new_client(dir);
@@ -603,7 +605,7 @@ impl AcctWorld {
                     self.stats.skipped += 1;
                     return Ok(());
                 }
-                let fl = FLAG_CHOICES[(*flags % 4) as usize];
+                let fl = FLAG_CHOICES[(*flags % 8) as usize];
                 let options = NewFolderOptions {
                     name: name.clone(),
                     flags: if fl == 0 { None } else { VaultFlags::from_bits(fl) },
@@ -650,7 +652,7 @@ impl AcctWorld {
                 }
                 let fi = user[pick(*folder, user.len())];
                 let fid = self.model.folders[fi].id;
-                let fl = FLAG_CHOICES[(*flags % 4) as usize];
+                let fl = FLAG_CHOICES[(*flags % 8) as usize];
                 self.account
                     .update_folder_flags(&fid, VaultFlags::from_bits(fl).unwrap())
                     .await
@@ -1277,9 +1279,9 @@ pub fn op_strategy(mix: Mix) -> BoxedStrategy<Op> {
         (2, any::<u16>().prop_map(|sec| Op::Unarchive { sec }).boxed()),
         (1, (any::<u16>(), spec_strategy()).prop_map(|(gone, spec)| Op::UpdateGone { gone, spec }).boxed()),
         (1, any::<u16>().prop_map(|gone| Op::DeleteGone { gone }).boxed()),
-        (4, (name_strategy(), 0u8..4).prop_map(|(name, flags)| Op::CreateFolder { name, flags }).boxed()),
+        (4, (name_strategy(), 0u8..8).prop_map(|(name, flags)| Op::CreateFolder { name, flags }).boxed()),
         (2, (any::<u16>(), name_strategy()).prop_map(|(folder, name)| Op::RenameFolder { folder, name }).boxed()),
-        (3, (any::<u16>(), 0u8..4).prop_map(|(folder, flags)| Op::SetFlags { folder, flags }).boxed()),
+        (3, (any::<u16>(), 0u8..8).prop_map(|(folder, flags)| Op::SetFlags { folder, flags }).boxed()),
         (2, (any::<u16>(), "[ -~]{0,30}|\\PC{0,8}").prop_map(|(folder, text)| Op::SetDescription { folder, text }).boxed()),
         (1, any::<u16>().prop_map(|folder| Op::DeleteFolder { folder }).boxed()),
     ];
